@@ -39,40 +39,48 @@ def _digest(results) -> str:
 
 
 def _observe(results, kind):
+    """One observer call of the given kind on every result; returns the sha256 of what the calls returned (texts, unit
+    texts, the bytes READ from every picture stream, tables, metadata, JSON)."""
+    out = []
+
+    def rec(x):
+        out.append(x)
+        return x
     for r in results:
         if kind == "FullText":
-            r.get_full_text()
+            rec(r.get_full_text())
         elif kind == "Units":
-            list(r.iterate_units())
+            rec(len(list(r.iterate_units())))
         elif kind == "UnitDeep":
             for u in r.iterate_units():
-                u.get_text()
+                rec(u.get_text())
                 for i in u.get_images():
-                    i.get_metadata()
+                    rec(repr(i.get_metadata()))
                 for t in u.get_tables():
-                    t.get_table()
-                u.get_metadata()
+                    rec(repr(t.get_table()))
+                rec(repr(u.get_metadata()))
                 if hasattr(u, "to_json"):
-                    u.to_json()
+                    rec(json.dumps(u.to_json(), sort_keys=True, default=repr))
         elif kind == "Images":
-            list(r.iterate_images())
+            rec(len(list(r.iterate_images())))
         elif kind == "ImageBytes":
             for i in r.iterate_images():
-                i.get_bytes().read()
-                i.get_content_type()
-                i.get_caption()
-                i.get_description()
-                i.get_metadata()
+                rec(hashlib.sha256(i.get_bytes().read()).hexdigest())
+                rec(i.get_content_type())
+                rec(i.get_caption())
+                rec(i.get_description())
+                rec(repr(i.get_metadata()))
         elif kind == "Tables":
             for t in r.iterate_tables():
-                t.get_table()
-                t.get_dim()
+                rec(repr(t.get_table()))
+                rec(repr(t.get_dim()))
         elif kind == "Metadata":
-            r.get_metadata()
+            rec(repr(r.get_metadata()))
         elif kind == "ToJson":
-            r.to_json()
+            rec(json.dumps(r.to_json(), sort_keys=True, default=repr))
         else:
             raise ValueError(kind)
+    return hashlib.sha256(json.dumps(out, default=repr).encode("utf-8", "surrogatepass")).hexdigest()
 
 
 def _load(doc):
@@ -105,25 +113,35 @@ def _same(buf, data) -> bool:
         return False
 
 
-def _extract(doc):
-    fn, data, name = _load(doc)
+def _extract(doc, name=None):
+    fn, data, name0 = _load(doc)
     buf = io.BytesIO(data)
-    results = list(fn(buf, name))
+    results = list(fn(buf, name or name0))
     return results, _same(buf, data)
 
 
 def _history_job(job):
     """Run the observer histories of one document; returns one event list per history."""
-    doc, histories = job
+    doc, histories, partners = job
     out = []
     try:
-        for h in histories:
+        for n, h in enumerate(histories):
             results, same = _extract(doc)
             d0 = _digest(results)
             evs = [("Input", same)]
+            first = {}
             for k in h:
-                _observe(results, k)
-                evs.append(("Obs", k, _digest(results)))
+                val = _observe(results, k)
+                evs.append(("Obs", k, _digest(results), 0 if first.setdefault(k, val) == val else 1))
+            # other extractions in the same process while the result is held: the same bytes under another path, then
+            # other documents (of the same family first); the held result must stay what it is
+            held = []
+            for q, other in enumerate([doc] + list(partners[:2 if n else len(partners)])):
+                try:
+                    held.append(_extract(other, name=f"elsewhere/dir {q}/other-{q}." + (other.get("fmt") or Path(other["path"]).suffix.lstrip(".")))[0])
+                except Exception:
+                    pass
+                evs.append(("Other", _digest(results)))
             results2, _ = _extract(doc)
             evs.append(("Reextract", "same", 0, _digest(results2)))
             out.append((d0, evs))
@@ -193,6 +211,29 @@ def _fresh_digests(docs_file, out_file, mode="seq"):
 
 
 # ----------------------------------------------------------------------------- driver
+
+def _zip_edit(data, drop=(), add=None, patch=None):
+    """A copy of a ZIP package without the members in drop, with the members of add, and with patch[name](bytes) applied."""
+    import zipfile
+    src = zipfile.ZipFile(io.BytesIO(data))
+    out = io.BytesIO()
+    with zipfile.ZipFile(out, "w") as z:
+        for info in src.infolist():
+            if info.filename in drop:
+                continue
+            blob = src.read(info.filename)
+            if patch and info.filename in patch:
+                blob = patch[info.filename](blob)
+            z.writestr(info.filename, blob, zipfile.ZIP_STORED if info.filename == "mimetype" else zipfile.ZIP_DEFLATED)
+        for name, blob in (add or {}).items():
+            z.writestr(name, blob, zipfile.ZIP_DEFLATED)
+    return out.getvalue()
+
+
+FAMILY = {**{f: "odf" for f in ("odt", "ods", "odp", "odg", "odf")}, **{f: "ooxml" for f in ("docx", "xlsx", "pptx")},
+          **{f: "web" for f in ("html", "mhtml", "epub")}, **{f: "ole" for f in ("doc", "ppt", "xls")},
+          **{f: "mail" for f in ("eml", "mbox")}, **{f: "arch" for f in ("7z", "zip", "tgz")}}
+
 def _fixtures(limit_bytes=600_000):
     root = REPO / "sharepoint2text" / "tests" / "resources"
     out = []
@@ -211,13 +252,13 @@ def run(ctx):
     seeds = [0, 1, 2, 1000 + ctx.seed % 1000]
     # ---- TLC on the specification
     cfg = ('SPECIFICATION Spec\nCONSTANTS Types = {"odt", "docx", "pdf"}\n Seeds = {0, 1, 2}\n MaxHist = 3\n'
-           " Deviations = {}\nPROPERTY Prop_DigestStable\nPROPERTY Prop_InputUntouched\nINVARIANT Inv_Digest\n")
+           " Deviations = {}\nPROPERTY Prop_DigestStable\nPROPERTY Prop_InputUntouched\nPROPERTY Prop_ValuesStable\nINVARIANT Inv_Digest\n")
     dump = ctx.scratch / "result.dump"
     r = run_tlc("Result", cfg, scratch=ctx.scratch, dump=dump)
     ev.tlc("Result: all histories of <= 3 observer / re-extraction actions leave digest and input unchanged", r)
     if r.violated:
         v.violation(what=f"Result.tla: {r.violated} violated on the specification")
-    for dv in ("Odt!UnitIteratorWritesImageUnitName", "StylesFromSet"):
+    for dv in ("Odt!UnitIteratorWritesImageUnitName", "StylesFromSet", "Image!StreamNotRewound", "SharedDefaultObject"):
         rs = run_tlc("Result", cfg.replace("Deviations = {}", f'Deviations = {{"{dv}"}}'), scratch=ctx.scratch, expect_fail=True)
         ev.tlc(f"Result sensitivity: deviation {dv} must violate digest stability", rs, note="expected violation")
         if not rs.violated:
@@ -289,6 +330,49 @@ def run(ctx):
             ti.size = len(payload)
             t.addfile(ti, io.BytesIO(payload))
     docs.append({"id": "gen:tgz", "fmt": "tgz", "data": tb.getvalue(), "type": "tgz"})
+    # packages without their optional parts (no meta.xml / no docProps): default objects stand in for what is missing
+    from ..writers.images import png as _png
+    by_id = {d["id"]: d for d in docs}
+    for f in ("odt", "ods", "odp", "odg", "odf"):
+        for tag, drop in (("nometa", ("meta.xml",)), ("bare", ("meta.xml", "styles.xml", "settings.xml"))):
+            docs.append({"id": f"gen:{f}-{tag}", "fmt": f, "type": f, "data": _zip_edit(by_id[f"gen:{f}"]["data"], drop=drop)})
+    for f in ("docx", "xlsx", "pptx"):
+        docs.append({"id": f"gen:{f}-noprops", "fmt": f, "type": f,
+                     "data": _zip_edit(by_id[f"gen:{f}"]["data"], drop=("docProps/core.xml", "docProps/app.xml"))})
+    # image relationships that nothing in the body references (legacy VML pictures, left-overs): several of them, so that
+    # an order taken from a set shows under different hash seeds
+    rel = ('<Relationship Id="rIdU{k}" Type="http://schemas.openxmlformats.org/officeDocument/2006/relationships/image" '
+           'Target="media/unref{k}.png"/>')
+    for f, rels_part, media in (("docx", "word/_rels/document.xml.rels", "word/media/"),
+                                ("pptx", "ppt/slides/_rels/slide1.xml.rels", "ppt/media/"),
+                                ("xlsx", "xl/drawings/_rels/drawing1.xml.rels", "xl/media/")):
+        base = by_id[f"gen:{f}"]["data"]
+        import zipfile as _zf
+        if rels_part not in _zf.ZipFile(io.BytesIO(base)).namelist():
+            continue
+        extra = "".join(rel.format(k=k) for k in range(1, 7))
+        docs.append({"id": f"gen:{f}-unref-images", "fmt": f, "type": f,
+                     "data": _zip_edit(base, add={f"{media}unref{k}.png": _png(k, k + 1, seed=k) for k in range(1, 7)},
+                                       patch={rels_part: lambda b, extra=extra: b.replace(b"</Relationships>", extra.encode() + b"</Relationships>")})})
+    # an EPUB with several documents that look like a table of contents (names with "nav" / "toc", two NCX files)
+    def _links(k):
+        return ('<?xml version="1.0" encoding="utf-8"?><html xmlns="http://www.w3.org/1999/xhtml"><head><title>n</title></head><body>'
+                + "".join(f'<p><a href="ch1.xhtml#s{j}">{word(100 * k + j)}</a></p>' for j in (1, 2, 3)) + "</body></html>").encode()
+
+    def _ncx(k):
+        return ('<?xml version="1.0"?><ncx xmlns="http://www.daisy.org/z3986/2005/ncx/" version="2005-1"><navMap>'
+                + "".join(f'<navPoint id="p{j}"><navLabel><text>{word(100 * k + j)}</text></navLabel><content src="ch1.xhtml#s{j}"/></navPoint>'
+                          for j in (1, 2)) + "</navMap></ncx>").encode()
+    cands = [("nav.xhtml", _links(1)), ("navigation-by-the-stars.xhtml", _links(2)), ("toccata.xhtml", _links(3)),
+             ("notes/toc-of-notes.xhtml", _links(4)), ("canavan.xhtml", _links(5))]
+    items = [{"part": "OEBPS/" + nm, "data": blob, "href": nm, "media": "application/xhtml+xml"} for nm, blob in cands]
+    items += [{"part": f"OEBPS/toc{k}.ncx", "data": _ncx(5 + k), "href": f"toc{k}.ncx", "media": "application/x-dtbncx+xml"} for k in (1, 2, 3)]
+    docs.append({"id": "gen:epub-many-tocs", "fmt": "epub", "type": "epub",
+                 "data": _web.write_epub({"chapters": [rich_doc("epub", ctx.seed)], "props": {"title": "T"}, "images": items},
+                                         opf_dir="OEBPS")})
+    docs.append({"id": "gen:epub-ncx-only", "fmt": "epub", "type": "epub",
+                 "data": _web.write_epub({"chapters": [rich_doc("epub", ctx.seed)], "props": {"title": "T"}, "images": items[len(cands):]},
+                                         opf_dir="OEBPS")})
     fixtures = _fixtures()
     if not ctx.thorough:
         rng.shuffle(fixtures)
@@ -303,7 +387,11 @@ def run(ctx):
             hs = hists if ctx.thorough else [h for h in hists if len(h) <= 2] + rng.sample([h for h in hists if len(h) == 3], 200)
         else:
             hs = rng.sample(hists, 12 if not ctx.thorough else 40)
-        jobs.append((d, hs))
+        fam = FAMILY.get(d.get("fmt") or d["type"], d["type"])
+        same = [x for x in docs if x is not d and FAMILY.get(x.get("fmt") or x["type"], x["type"]) == fam]
+        # partners: documents of the same family, the variants without optional parts first
+        same.sort(key=lambda x: (0 if any(t in x["id"] for t in ("nometa", "bare", "noprops")) else 1, x["id"]))
+        jobs.append((d, hs, same[:3]))
     with ProcessPoolExecutor(16) as ex:
         results = list(ex.map(_history_job, jobs))
 
@@ -336,7 +424,7 @@ def run(ctx):
 
     # ---- build traces
     traces = []
-    for (d, hs), res in zip(jobs, results):
+    for (d, hs, _), res in zip(jobs, results):
         if "exc" in res:
             # extraction failures of fixtures are not this property's business unless they are nondeterministic
             ev.sample({"doc": d["id"], "skipped": res["exc"]})
@@ -351,7 +439,9 @@ def run(ctx):
                 if e[0] == "Input":
                     tev.append({"a": "Input", "same": bool(e[1])})
                 elif e[0] == "Obs":
-                    tev.append({"a": "Obs", "k": e[1], "d": did(e[2])})
+                    tev.append({"a": "Obs", "k": e[1], "d": did(e[2]), "v": e[3]})
+                elif e[0] == "Other":
+                    tev.append({"a": "Other", "d": did(e[1])})
                 else:
                     tev.append({"a": "Reextract", "m": e[1], "s": e[2], "d": did(e[3])})
             if n == 0:
@@ -372,13 +462,19 @@ def run(ctx):
             v.ok()
             continue
         # message only: the first event at which TLC stops is the first digest change / input change
-        k = next((i for i, e in enumerate(t["ev"]) if e.get("d", 0) != 0 or e.get("same") is False), 0)
+        k = next((i for i, e in enumerate(t["ev"]) if e.get("d", 0) != 0 or e.get("same") is False or e.get("v", 0) != 0), 0)
         if tv.reached >= 0 and tv.reached != k:
             raise MachineryError(f"trace diagnosis disagrees for {t['id']}: TLC stopped at {tv.reached}, expected {k}")
         e = t["ev"][k]
-        if e["a"] == "Obs":
+        if e["a"] == "Obs" and e.get("d", 0) == 0:
+            what = (f"observer {e['k']} returns something else than its first call did for {t['id'].split('#')[0]} "
+                    f"(history {t['hist']}): the observation is not idempotent")
+        elif e["a"] == "Obs":
             what = (f"observer {e['k']} changed what to_json() returns for {t['id'].split('#')[0]} "
                     f"(history {t['hist']}): digest differs after the call")
+        elif e["a"] == "Other":
+            what = (f"a held result of {t['id'].split('#')[0]} changed when another input (or the same bytes under another "
+                    f"path) was extracted in the same process: results share mutable state")
         elif e["a"] == "Reextract":
             what = (f"re-extraction ({e['m']} process, PYTHONHASHSEED={e['s']}) of {t['id'].split('#')[0]} yields a "
                     f"different to_json() digest")
